@@ -47,7 +47,9 @@ func monitor(x *engine.Exec, entry, class string, evs []model.Event, single bool
 }
 
 func c09Families(tier string) []engine.Family {
-	sc := conformScope(tier)
+	// parser part: the quick conformance languages in both tiers (the thorough conformance languages times
+	// two feeding modes did not finish within the internal deadline); the thorough tier deepens the Go type space
+	sc := conformScope("quick")
 	sc.JSONTok = tierPick(tier, 5, 6)
 	fams := allDocFamilies(sc, func(x *engine.Exec, c *DocCase) {
 		if c.Ref.Status != model.Complete {
